@@ -13,6 +13,7 @@ from dataclasses import dataclass, field
 from typing import List, Tuple
 
 PY = sys.executable
+ROOT = os.path.dirname(os.path.dirname(os.path.abspath(__file__)))
 NWORKERS = int(os.environ.get("VERIF_WORKERS", "16"))
 NATIVE_SAMPLES = int(os.environ.get("VERIF_NATIVE_SAMPLES", "60"))
 try:
@@ -53,10 +54,10 @@ class SOutcome:
 
 def _spawn(args, timeout):
     env = dict(os.environ)
-    env["PYTHONPATH"] = "/verif" + (":" + env["PYTHONPATH"] if env.get("PYTHONPATH") else "")
+    env["PYTHONPATH"] = ROOT + (":" + env["PYTHONPATH"] if env.get("PYTHONPATH") else "")
     env["PYTHONHASHSEED"] = "0"
     try:
-        p = subprocess.run([PY, "-m", "vlib.chworker"] + [str(a) for a in args], capture_output=True, text=True, timeout=timeout, env=env, cwd="/verif")
+        p = subprocess.run([PY, "-m", "vlib.chworker"] + [str(a) for a in args], capture_output=True, text=True, timeout=timeout, env=env, cwd=ROOT)
     except subprocess.TimeoutExpired:
         return None, "timeout after %ss" % timeout
     for line in p.stdout.splitlines():
